@@ -263,7 +263,10 @@ fn model(st: &ObservableInstanceState, prog: &Program) -> Vec<MFamily> {
     for (i, ci) in pt.list.iter().enumerate() {
         let mut l = inst.clone();
         l.push(("node", LabelV::ClockId(ci.0)));
-        series.push(MSeries { labels: l, value: i as f64, also: vec![], required: true });
+        // a repeated identity cannot be told apart by the `node` label: only its first
+        // occurrence must be served (serving both is a duplicate series, caught by the parser)
+        let first = !pt.list[..i].contains(ci);
+        series.push(MSeries { labels: l, value: i as f64, also: vec![], required: first });
     }
     let mut l = inst.clone();
     l.push(("node", LabelV::Text("self".into())));
